@@ -56,6 +56,8 @@ def run_one(path, scratch, tier="quick", only_prop=None, expects=None, baseline=
     if r.returncode != 0:
         r = subprocess.run(["patch", "-p1", "-s", "-d", scratch, "-i", path], capture_output=True, text=True)
         if r.returncode != 0:
+            # `patch` may have applied some hunks: put the scratch copy back before the next patch is tried
+            subprocess.run(["rsync", "-a", "--delete", "--exclude", "/target", "--exclude", "/.git", REPO + "/", scratch + "/"])
             return "skipped", "patch does not apply: " + (r.stderr or r.stdout)[-300:]
     try:
         evd = tempfile.mkdtemp(prefix="ev", dir=SCRATCH_ROOT)
